@@ -24,12 +24,15 @@
  *   drv_vfiles stick CASEFILE DIR FROM TO    file type memory histories
  * env: VT_TRACE=<path> (default stdout), VFILES_TMP=<scratch directory>
  *
- * c06 case line:   type rows cols nf ext set fmt z0c prec mag
+ * c06 case line:   type rows cols nf ext set fmt z0c prec mag fprec twin
  *   type  undef S T U Z Y H G A B Zin      ext  none other npd ts snp
  *   set   auto npd ts1 ts2                 fmt  comma list or "-" (not set)
- *   z0c   equal unequal complex perfreq    prec 1..17 or MAX
+ *   z0c   equal unequal complex perfreq    prec 1..17 or MAX (dprecision)
+ *   fprec 1..17 or MAX (fprecision)        twin 0: cksave, save, fsave on one
+ *   object; 1: on three identically built objects (save and fsave then run
+ *   on objects vnadata_cksave has not touched)
  *   mag   -12 0 12 (decimal exponent of the value scale)
- * case id: c06:SEED:INDEX:type:rows:cols:nf:ext:set:fmt:z0c:prec:mag
+ * case id: c06:SEED:INDEX:type:rows:cols:nf:ext:set:fmt:z0c:prec:mag:fprec:twin
  */
 #include <complex.h>
 #include <ctype.h>
@@ -268,12 +271,14 @@ typedef struct c06_case {
     char fmt[128];
     char z0c[12];
     char prec[8];
+    char fprec[8];
+    int twin;
     int mag;
 } c06_case_t;
 
 static int parse_case_fields(char **fld, int n, c06_case_t *cp)
 {
-    if (n != 10)
+    if (n != 12)
 	return -1;
     snprintf(cp->type, sizeof(cp->type), "%s", fld[0]);
     cp->rows = atoi(fld[1]);
@@ -285,6 +290,8 @@ static int parse_case_fields(char **fld, int n, c06_case_t *cp)
     snprintf(cp->z0c, sizeof(cp->z0c), "%s", fld[7]);
     snprintf(cp->prec, sizeof(cp->prec), "%s", fld[8]);
     cp->mag = atoi(fld[9]);
+    snprintf(cp->fprec, sizeof(cp->fprec), "%s", fld[10]);
+    cp->twin = atoi(fld[11]);
     if (type_from_name(cp->type) < 0 || cp->cols > MAXP || cp->rows > MAXP ||
 	    cp->nf > MAXF || cp->rows < 0 || cp->cols < 0 || cp->nf < 0)
 	return -1;
@@ -406,96 +413,42 @@ static void do_load(const char *evname, const char *path, const char *name,
     LIBV(vnadata_free(v2));
 }
 
-static void run_c06(const c06_case_t *cp, uint64_t seed, const char *caseid)
-{
-    vt_rng_t rng;
-    vnadata_t *vdp;
-    int type = type_from_name(cp->type);
-    int ports = cp->rows > cp->cols ? cp->rows : cp->cols;
-    int ncell = cp->rows * cp->cols;
+typedef struct c06_values {
+    int type, ports, perfreq, fprec, dprec;
     double freqs[MAXF];
     double complex data[MAXF][MAXP * MAXP];
     double complex z0[MAXF][MAXP];
-    double scale = pow(10.0, (double)cp->mag);
-    /* without a frequency there is no per-frequency impedance to set */
-    int perfreq = strcmp(cp->z0c, "perfreq") == 0 && cp->nf > 0;
-    int prec;
-    char path1[256], path2[256], name2[256];
-    char cfgkey[256];
-    int rv, e;
-    int save_ok, fsave_ok;
+} c06_values_t;
+
+/*
+ * Build one object from the case and its values.  Returns NULL if
+ * vnadata_alloc_and_init refuses; *fmt_rv / *fmt_errno receive the outcome
+ * of vnadata_set_format (0 if no format is set).
+ */
+static vnadata_t *c06_build(const c06_case_t *cp, const c06_values_t *v,
+	int *fmt_rv, int *fmt_errno)
+{
+    vnadata_t *vdp;
     vnadata_filetype_t ft;
-    static const double fbase[MAXF] = {
-	1.0e6, 3.0e7, 7.0e8, 2.0e10, 5.0e11, 1.0e13, 3.0e14, 7.0e15
-    };
-    static const double zpool[] = { 50.0, 75.0, 1.0, 0.5, 600.0, 50.0, 12.5 };
 
-    snprintf(cfgkey, sizeof(cfgkey), "%s:%d:%d:%d:%s:%s:%s:%s:%s:%d",
-	    cp->type, cp->rows, cp->cols, cp->nf, cp->ext, cp->set, cp->fmt,
-	    cp->z0c, cp->prec, cp->mag);
-    vt_seed(&rng, seed ^ hash_str(cfgkey));
-    prec = strcmp(cp->prec, "MAX") == 0 ? VNADATA_MAX_PRECISION :
-	atoi(cp->prec);
-
-    vt_put("{\"e\":\"Reset\",\"case\":\"%s\"}", caseid);
-    vt_end_line();
-
-    /* ---- values (ground truth lives in these arrays, not in the library) */
-    for (int f = 0; f < cp->nf; ++f) {
-	freqs[f] = fbase[f] * (1.0 + 0.3 * vt_unit(&rng));
-	if (vt_below(&rng, 4) == 0)
-	    freqs[f] = fbase[f];		/* a round number now and then */
-	for (int c = 0; c < ncell; ++c) {
-	    double mag, ph;
-
-	    do {
-		mag = 0.2 + 1.8 * vt_unit(&rng);
-	    } while (fabs(mag - 1.0) < 0.05);	/* keep VSWR well-conditioned */
-	    ph = 6.283185307179586 * vt_unit(&rng);
-	    data[f][c] = scale * mag * (cos(ph) + I * sin(ph));
-	}
-    }
-    {
-	double zeq = zpool[vt_below(&rng, 7)];
-
-	for (int f = 0; f < (cp->nf > 0 ? cp->nf : 1); ++f) {
-	    for (int p = 0; p < ports; ++p) {
-		if (strcmp(cp->z0c, "equal") == 0) {
-		    z0[f][p] = zeq;
-		} else if (strcmp(cp->z0c, "unequal") == 0) {
-		    z0[f][p] = zeq * (1.0 + 0.37 * p) + (ports == 1 ? 3.0 : 0.0);
-		} else if (strcmp(cp->z0c, "complex") == 0) {
-		    z0[f][p] = zeq * (1.0 + 0.21 * p) +
-			I * (p == ports - 1 ? 7.5 : (p % 2 ? -3.25 : 0.0));
-		} else {
-		    z0[f][p] = zeq * (1.0 + 0.21 * p + 0.1 * f) +
-			I * (2.0 * f - 1.5 * p + 0.5);
-		}
-	    }
-	}
-    }
-
-    /* ---- build the object */
-    vt_cb_reset();
+    *fmt_rv = 0;
+    *fmt_errno = 0;
     vdp = LIB(vnadata_alloc_and_init(vt_errfn, NULL,
-		(vnadata_parameter_type_t)type, cp->rows, cp->cols, cp->nf));
-    if (vdp == NULL) {
-	vt_put("{\"e\":\"Skip\",\"why\":\"init refused\"}");
-	vt_end_line();
-	goto end;
-    }
+		(vnadata_parameter_type_t)v->type, cp->rows, cp->cols, cp->nf));
+    if (vdp == NULL)
+	return NULL;
     for (int f = 0; f < cp->nf; ++f) {
-	if (LIB(vnadata_set_frequency(vdp, f, freqs[f])) != 0)
+	if (LIB(vnadata_set_frequency(vdp, f, v->freqs[f])) != 0)
 	    _exit(7);
-	if (LIB(vnadata_set_matrix(vdp, f, data[f])) != 0)
+	if (LIB(vnadata_set_matrix(vdp, f, v->data[f])) != 0)
 	    _exit(7);
     }
-    if (!perfreq) {
-	if (LIB(vnadata_set_z0_vector(vdp, z0[0])) != 0)
+    if (!v->perfreq) {
+	if (LIB(vnadata_set_z0_vector(vdp, v->z0[0])) != 0)
 	    _exit(7);
     } else {
 	for (int f = 0; f < cp->nf; ++f) {
-	    if (LIB(vnadata_set_fz0_vector(vdp, f, z0[f])) != 0)
+	    if (LIB(vnadata_set_fz0_vector(vdp, f, v->z0[f])) != 0)
 		_exit(7);
 	}
     }
@@ -505,22 +458,164 @@ static void run_c06(const c06_case_t *cp, uint64_t seed, const char *caseid)
 	if (LIB(vnadata_set_filetype(vdp, ft)) != 0)
 	    _exit(7);
     }
-    if (LIB(vnadata_set_fprecision(vdp, prec)) != 0 ||
-	    LIB(vnadata_set_dprecision(vdp, prec)) != 0)
+    if (LIB(vnadata_set_fprecision(vdp, v->fprec)) != 0 ||
+	    LIB(vnadata_set_dprecision(vdp, v->dprec)) != 0)
 	_exit(7);
     if (strcmp(cp->fmt, "-") != 0) {
 	vt_cb_reset();
-	rv = LIB(vnadata_set_format(vdp, cp->fmt));
-	e = errno;
-	vt_put("{\"e\":\"SetFormat\",\"fmts\":");
-	put_fmts(cp->fmt);
-	vt_put(",");
-	put_outcome(rv == 0, e);
-	vt_put("}");
-	vt_end_line();
-	if (rv != 0)
-	    goto free_end;
+	*fmt_rv = LIB(vnadata_set_format(vdp, cp->fmt));
+	*fmt_errno = errno;
     }
+    return vdp;
+}
+
+/* has saving left the object's data alone? */
+static int c06_unchanged(vnadata_t *vdp, const c06_case_t *cp,
+	const c06_values_t *v)
+{
+    if ((int)LIB(vnadata_get_type(vdp)) != v->type ||
+	    LIB(vnadata_get_rows(vdp)) != cp->rows ||
+	    LIB(vnadata_get_columns(vdp)) != cp->cols ||
+	    LIB(vnadata_get_frequencies(vdp)) != cp->nf ||
+	    (LIB(vnadata_has_fz0(vdp)) ? 1 : 0) != v->perfreq)
+	return 0;
+    for (int f = 0; f < cp->nf; ++f) {
+	if (LIB(vnadata_get_frequency(vdp, f)) != v->freqs[f])
+	    return 0;
+	for (int r = 0; r < cp->rows; ++r) {
+	    for (int c = 0; c < cp->cols; ++c) {
+		double complex x = LIB(vnadata_get_cell(vdp, f, r, c));
+		double complex y = v->data[f][r * cp->cols + c];
+
+		if (creal(x) != creal(y) || cimag(x) != cimag(y))
+		    return 0;
+	    }
+	}
+	for (int p = 0; p < v->ports; ++p) {
+	    double complex z = LIB(vnadata_get_fz0(vdp, f, p));
+	    double complex w = v->perfreq ? v->z0[f][p] : v->z0[0][p];
+
+	    if (creal(z) != creal(w) || cimag(z) != cimag(w))
+		return 0;
+	}
+    }
+    return 1;
+}
+
+static void run_c06(const c06_case_t *cp, uint64_t seed, const char *caseid)
+{
+    vt_rng_t rng;
+    vnadata_t *obj[3] = { NULL, NULL, NULL };	/* for cksave, save, fsave */
+    int nobj;
+    static c06_values_t v;
+    int ncell = cp->rows * cp->cols;
+    double scale = pow(10.0, (double)cp->mag);
+    char path1[256], path2[256], name2[256];
+    char cfgkey[320];
+    int rv, e;
+    int save_ok, fsave_ok;
+    int fmt_rv = 0, fmt_errno = 0;
+    static const double fbase[MAXF] = {
+	1.0e6, 3.0e7, 7.0e8, 2.0e10, 5.0e11, 1.0e13, 3.0e14, 7.0e15
+    };
+    static const double zpool[] = { 50.0, 75.0, 1.0, 0.5, 600.0, 50.0, 12.5 };
+
+    memset(&v, 0, sizeof(v));
+    v.type = type_from_name(cp->type);
+    v.ports = cp->rows > cp->cols ? cp->rows : cp->cols;
+    /* without a frequency there is no per-frequency impedance to set */
+    v.perfreq = strcmp(cp->z0c, "perfreq") == 0 && cp->nf > 0;
+    v.dprec = strcmp(cp->prec, "MAX") == 0 ? VNADATA_MAX_PRECISION :
+	atoi(cp->prec);
+    v.fprec = strcmp(cp->fprec, "MAX") == 0 ? VNADATA_MAX_PRECISION :
+	atoi(cp->fprec);
+    snprintf(cfgkey, sizeof(cfgkey), "%s:%d:%d:%d:%s:%s:%s:%s:%s:%d:%s",
+	    cp->type, cp->rows, cp->cols, cp->nf, cp->ext, cp->set, cp->fmt,
+	    cp->z0c, cp->prec, cp->mag, cp->fprec);
+    vt_seed(&rng, seed ^ hash_str(cfgkey));
+
+    vt_put("{\"e\":\"Reset\",\"case\":\"%s\"}", caseid);
+    vt_end_line();
+
+    /* ---- values (ground truth lives in these arrays, not in the library) */
+    for (int f = 0; f < cp->nf; ++f) {
+	v.freqs[f] = fbase[f] * (1.0 + 0.3 * vt_unit(&rng));
+	if (vt_below(&rng, 4) == 0)
+	    v.freqs[f] = fbase[f];		/* a round number now and then */
+	for (int c = 0; c < ncell; ++c) {
+	    double mag, ph;
+
+	    do {
+		mag = 0.2 + 1.8 * vt_unit(&rng);
+	    } while (fabs(mag - 1.0) < 0.05);	/* keep VSWR well-conditioned */
+	    ph = 6.283185307179586 * vt_unit(&rng);
+	    v.data[f][c] = scale * mag * (cos(ph) + I * sin(ph));
+	}
+    }
+    {
+	/*
+	 * Impedances: mostly numbers that need every digit of the
+	 * precision asked for (real and imaginary part alike), sometimes
+	 * round ones (50, 75, 1 -- 1 skips the Touchstone 1 normalisation).
+	 */
+	double zeq = zpool[vt_below(&rng, 7)];
+	int ugly = vt_below(&rng, 3) != 0;
+
+	if (ugly && strcmp(cp->z0c, "equal") == 0 && vt_below(&rng, 2) == 0)
+	    zeq *= 1.0 + 0.013 * vt_unit(&rng);
+	for (int f = 0; f < (cp->nf > 0 ? cp->nf : 1); ++f) {
+	    for (int p = 0; p < v.ports; ++p) {
+		double wr = ugly ? 1.0 + 0.011 * vt_unit(&rng) : 1.0;
+		double wi = ugly ? 1.0 + 0.017 * vt_unit(&rng) : 1.0;
+
+		if (strcmp(cp->z0c, "equal") == 0) {
+		    v.z0[f][p] = zeq;
+		} else if (strcmp(cp->z0c, "unequal") == 0) {
+		    v.z0[f][p] = wr * (zeq * (1.0 + 0.37 * p) +
+			    (v.ports == 1 ? 3.0 : 0.0));
+		} else if (strcmp(cp->z0c, "complex") == 0) {
+		    v.z0[f][p] = wr * zeq * (1.0 + 0.21 * p) +
+			I * wi * (p == v.ports - 1 ? 7.5 :
+				(p % 2 ? -3.25 : 0.0));
+		} else {
+		    v.z0[f][p] = wr * zeq * (1.0 + 0.21 * p + 0.1 * f) +
+			I * wi * (2.0 * f - 1.5 * p + 0.5);
+		}
+	    }
+	}
+    }
+
+    /* ---- build the object(s) */
+    nobj = cp->twin ? 3 : 1;
+    for (int k = 0; k < nobj; ++k) {
+	int r2, e2;
+
+	vt_cb_reset();
+	obj[k] = c06_build(cp, &v, &r2, &e2);
+	if (obj[k] == NULL) {
+	    vt_put("{\"e\":\"Skip\",\"why\":\"init refused\"}");
+	    vt_end_line();
+	    goto free_end;
+	}
+	if (k == 0) {
+	    fmt_rv = r2;
+	    fmt_errno = e2;
+	    if (strcmp(cp->fmt, "-") != 0) {
+		vt_put("{\"e\":\"SetFormat\",\"fmts\":");
+		put_fmts(cp->fmt);
+		vt_put(",");
+		put_outcome(fmt_rv == 0, fmt_errno);
+		vt_put("}");
+		vt_end_line();
+	    }
+	} else if ((r2 == 0) != (fmt_rv == 0)) {
+	    _exit(8);		/* identical calls, different outcome */
+	}
+    }
+    if (fmt_rv != 0)
+	goto free_end;
+    if (!cp->twin)
+	obj[1] = obj[2] = obj[0];
 
     /* ---- the three entry points */
     make_filename(path1, sizeof(path1), "a", cp);
@@ -531,24 +626,25 @@ static void run_c06(const c06_case_t *cp, uint64_t seed, const char *caseid)
 
     vt_put("{\"e\":\"Save3\",");
     put_cfg(cp);
-    vt_put(",\"prec\":\"%s\",\"mag\":%d", cp->prec, cp->mag);
+    vt_put(",\"prec\":\"%s\",\"fprec\":\"%s\",\"twin\":%d,\"mag\":%d", cp->prec,
+	    cp->fprec, cp->twin, cp->mag);
 
     vt_cb_reset();
-    rv = LIB(vnadata_cksave(vdp, path1));
+    rv = LIB(vnadata_cksave(obj[0], path1));
     e = errno;
     vt_put(",\"ck\":{");
     put_outcome(rv == 0, e);
     vt_put(",\"file\":%d,\"ft\":\"%s\"}", file_exists(path1),
-	    ft_name(LIB(vnadata_get_filetype(vdp))));
+	    ft_name(LIB(vnadata_get_filetype(obj[0]))));
 
     vt_cb_reset();
-    rv = LIB(vnadata_save(vdp, path1));
+    rv = LIB(vnadata_save(obj[1], path1));
     e = errno;
     save_ok = rv == 0;
     vt_put(",\"sv\":{");
     put_outcome(rv == 0, e);
     vt_put(",\"file\":%d,\"ft\":\"%s\"}", file_exists(path1),
-	    ft_name(LIB(vnadata_get_filetype(vdp))));
+	    ft_name(LIB(vnadata_get_filetype(obj[1]))));
 
     {
 	FILE *fp = fopen(path2, "w");
@@ -557,7 +653,7 @@ static void run_c06(const c06_case_t *cp, uint64_t seed, const char *caseid)
 	if (fp == NULL)
 	    _exit(6);
 	vt_cb_reset();
-	rv = LIB(vnadata_fsave(vdp, fp, name2));
+	rv = LIB(vnadata_fsave(obj[2], fp, name2));
 	e = errno;
 	fflush(fp);
 	pos = ftell(fp);
@@ -566,38 +662,14 @@ static void run_c06(const c06_case_t *cp, uint64_t seed, const char *caseid)
 	vt_put(",\"fs\":{");
 	put_outcome(rv == 0, e);
 	vt_put(",\"file\":%d,\"ft\":\"%s\"}", pos > 0,
-		ft_name(LIB(vnadata_get_filetype(vdp))));
+		ft_name(LIB(vnadata_get_filetype(obj[2]))));
     }
-    /* the object itself must not have been changed by saving it */
+    /* the objects themselves must not have been changed by saving them */
     {
 	int same = 1;
 
-	if ((int)LIB(vnadata_get_type(vdp)) != type ||
-		LIB(vnadata_get_rows(vdp)) != cp->rows ||
-		LIB(vnadata_get_columns(vdp)) != cp->cols ||
-		LIB(vnadata_get_frequencies(vdp)) != cp->nf ||
-		(LIB(vnadata_has_fz0(vdp)) ? 1 : 0) != perfreq)
-	    same = 0;
-	for (int f = 0; same && f < cp->nf; ++f) {
-	    if (LIB(vnadata_get_frequency(vdp, f)) != freqs[f])
-		same = 0;
-	    for (int r = 0; same && r < cp->rows; ++r) {
-		for (int c = 0; c < cp->cols; ++c) {
-		    double complex v = LIB(vnadata_get_cell(vdp, f, r, c));
-
-		    if (creal(v) != creal(data[f][r * cp->cols + c]) ||
-			    cimag(v) != cimag(data[f][r * cp->cols + c]))
-			same = 0;
-		}
-	    }
-	    for (int p = 0; same && p < ports; ++p) {
-		double complex z = LIB(vnadata_get_fz0(vdp, f, p));
-		double complex w = perfreq ? z0[f][p] : z0[0][p];
-
-		if (creal(z) != creal(w) || cimag(z) != cimag(w))
-		    same = 0;
-	    }
-	}
+	for (int k = 0; k < nobj; ++k)
+	    same = same && c06_unchanged(obj[k], cp, &v);
 	vt_put(",\"objSame\":%d}", same);
     }
     vt_end_line();
@@ -610,17 +682,17 @@ static void run_c06(const c06_case_t *cp, uint64_t seed, const char *caseid)
 
 	vt_put("{\"e\":\"Dump\",\"what\":\"obj\",\"type\":\"%s\",\"rows\":%d,"
 		"\"cols\":%d,\"nf\":%d,\"perfreq\":%d,\"fprec\":%d,\"dprec\":%d,"
-		"\"freqs\":[", cp->type, cp->rows, cp->cols, cp->nf, perfreq,
-		prec, prec);
+		"\"freqs\":[", cp->type, cp->rows, cp->cols, cp->nf, v.perfreq,
+		v.fprec, v.dprec);
 	for (int f = 0; f < cp->nf; ++f)
-	    vt_put("%s\"%a\"", f ? "," : "", freqs[f]);
+	    vt_put("%s\"%a\"", f ? "," : "", v.freqs[f]);
 	vt_put("],\"z0\":[");
-	for (int f = 0; f < (perfreq ? cp->nf : 1); ++f) {
+	for (int f = 0; f < (v.perfreq ? cp->nf : 1); ++f) {
 	    vt_put("%s[", f ? "," : "");
-	    for (int p = 0; p < ports; ++p) {
+	    for (int p = 0; p < v.ports; ++p) {
 		if (p)
 		    vt_put(",");
-		put_cx(z0[f][p]);
+		put_cx(v.z0[f][p]);
 	    }
 	    vt_put("]");
 	}
@@ -630,7 +702,7 @@ static void run_c06(const c06_case_t *cp, uint64_t seed, const char *caseid)
 	    for (int c = 0; c < ncell; ++c) {
 		if (c)
 		    vt_put(",");
-		put_cx(data[f][c]);
+		put_cx(v.data[f][c]);
 	    }
 	    vt_put("]");
 	}
@@ -659,8 +731,10 @@ static void run_c06(const c06_case_t *cp, uint64_t seed, const char *caseid)
     (void)unlink(path2);
 
 free_end:
-    LIBV(vnadata_free(vdp));
-end:
+    for (int k = 0; k < nobj; ++k) {
+	if (obj[k] != NULL)
+	    LIBV(vnadata_free(obj[k]));
+    }
     vt_put("{\"e\":\"End\",\"live\":%ld}", vt_alloc_live);
     vt_end_line();
 }
@@ -673,10 +747,10 @@ static int c06_from_id(const char *caseid, c06_case_t *cp, uint64_t *seed)
 
     snprintf(buf, sizeof(buf), "%s", caseid);
     n = split(buf, ":", fld, 16);
-    if (n != 13 || strcmp(fld[0], "c06") != 0)
+    if (n != 15 || strcmp(fld[0], "c06") != 0)
 	return -1;
     *seed = strtoull(fld[1], NULL, 10);
-    return parse_case_fields(&fld[3], 10, cp);
+    return parse_case_fields(&fld[3], 12, cp);
 }
 
 static int mode_c06(const char *casefile, uint64_t seed, long from, long to)
@@ -709,9 +783,9 @@ static int mode_c06(const char *casefile, uint64_t seed, long from, long to)
 	    return 4;
 	}
 	snprintf(caseid, sizeof(caseid),
-		"c06:%llu:%ld:%s:%d:%d:%d:%s:%s:%s:%s:%s:%d",
+		"c06:%llu:%ld:%s:%d:%d:%d:%s:%s:%s:%s:%s:%d:%s:%d",
 		(unsigned long long)seed, idx, c.type, c.rows, c.cols, c.nf,
-		c.ext, c.set, c.fmt, c.z0c, c.prec, c.mag);
+		c.ext, c.set, c.fmt, c.z0c, c.prec, c.mag, c.fprec, c.twin);
 	run_c06(&c, seed, caseid);
 	++idx;
     }
